@@ -22,6 +22,8 @@ macro_rules! env_proof {
         #[kani::stub(alloc::fmt::format, crate::kani_support::stubs::fmt_format)]
         #[kani::stub(core::fmt::write, crate::kani_support::stubs::fmt_write)]
         #[kani::stub(<core::io::CustomOwner as core::ops::Drop>::drop, crate::kani_support::stubs::custom_owner_drop)]
+        #[kani::stub(<std::io::Error as core::fmt::Display>::fmt, crate::kani_support::stubs::io_error_display)]
+        #[kani::stub(<std::io::Error as core::fmt::Debug>::fmt, crate::kani_support::stubs::io_error_display)]
         #[kani::stub(<&std::fs::File as std::io::Write>::write, crate::kani_support::stubs::file_write)]
         #[kani::stub(<&std::fs::File as std::io::Read>::read, crate::kani_support::stubs::file_read)]
         #[kani::stub(std::fs::File::sync_data, crate::kani_support::stubs::file_sync_data)]
@@ -47,6 +49,8 @@ macro_rules! env_proof {
         #[kani::stub(alloc::fmt::format, crate::kani_support::stubs::fmt_format)]
         #[kani::stub(core::fmt::write, crate::kani_support::stubs::fmt_write)]
         #[kani::stub(<core::io::CustomOwner as core::ops::Drop>::drop, crate::kani_support::stubs::custom_owner_drop)]
+        #[kani::stub(<std::io::Error as core::fmt::Display>::fmt, crate::kani_support::stubs::io_error_display)]
+        #[kani::stub(<std::io::Error as core::fmt::Debug>::fmt, crate::kani_support::stubs::io_error_display)]
         #[kani::stub(<&std::fs::File as std::io::Write>::write, crate::kani_support::stubs::file_write)]
         #[kani::stub(<&std::fs::File as std::io::Read>::read, crate::kani_support::stubs::file_read)]
         #[kani::stub(std::fs::File::sync_data, crate::kani_support::stubs::file_sync_data)]
@@ -71,6 +75,8 @@ macro_rules! env_proof {
         #[kani::stub(alloc::fmt::format, crate::kani_support::stubs::fmt_format)]
         #[kani::stub(core::fmt::write, crate::kani_support::stubs::fmt_write)]
         #[kani::stub(<core::io::CustomOwner as core::ops::Drop>::drop, crate::kani_support::stubs::custom_owner_drop)]
+        #[kani::stub(<std::io::Error as core::fmt::Display>::fmt, crate::kani_support::stubs::io_error_display)]
+        #[kani::stub(<std::io::Error as core::fmt::Debug>::fmt, crate::kani_support::stubs::io_error_display)]
         #[kani::stub(<&std::fs::File as std::io::Write>::write, crate::kani_support::stubs::file_write)]
         #[kani::stub(<&std::fs::File as std::io::Read>::read, crate::kani_support::stubs::file_read)]
         #[kani::stub(std::fs::File::sync_data, crate::kani_support::stubs::file_sync_data)]
@@ -97,6 +103,8 @@ macro_rules! env_proof {
         #[kani::stub(alloc::fmt::format, crate::kani_support::stubs::fmt_format)]
         #[kani::stub(core::fmt::write, crate::kani_support::stubs::fmt_write)]
         #[kani::stub(<core::io::CustomOwner as core::ops::Drop>::drop, crate::kani_support::stubs::custom_owner_drop)]
+        #[kani::stub(<std::io::Error as core::fmt::Display>::fmt, crate::kani_support::stubs::io_error_display)]
+        #[kani::stub(<std::io::Error as core::fmt::Debug>::fmt, crate::kani_support::stubs::io_error_display)]
         #[kani::stub(<&std::fs::File as std::io::Write>::write, crate::kani_support::stubs::file_write)]
         #[kani::stub(<&std::fs::File as std::io::Read>::read, crate::kani_support::stubs::file_read)]
         #[kani::stub(std::fs::File::sync_data, crate::kani_support::stubs::file_sync_data)]
